@@ -237,7 +237,7 @@ impl Lexer {
         };
 
         self.possible_search_root = matches!(lexem, Some(Lexem::From))
-                || (matches!(lexem, Some(Lexem::Comma)) && !self.before_from && !self.after_where);
+                || (matches!(lexem, Some(Lexem::Comma)) && !self.before_from && !self.after_where && !self.after_by);
         self.after_operator = matches!(lexem, Some(Lexem::Operator(_)));
 
         lexem
